@@ -748,3 +748,112 @@ def rule_A9(ctx):
                   "in lexing state %s, consuming %s: %s on a path that records no error - the line / column reported for every later token is off" % (state, ", ".join(_chr(c) for c in codes[:6]) + (" ..." if len(codes) > 6 else ""), b.replace("-", " ")))
     r.floor("(state, character class) steps interpreted", n, 100)
     return r
+
+
+# ---------------------------------------------------------------------------------------------------------------------
+# A14  per-token reset completeness.  When a token ends the consumer returns the lexer to its neutral state: state := the
+#      neutral variant, buffer := empty, type := none - and every counter / flag that the consumer both sets to a constant and
+#      changes while a token is being read.  One that is left out of the reset carries its value into the next token (the
+#      closing-quote count of the previous literal makes the next one-character literal end late or never).
+def reset_analysis(sh):
+    f = sh.consumer
+    mir = f["mir"]
+    bl = mir["blocks"]
+    # all whole-field assignments of the consumer: field -> list of (block, kind) with kind const/other
+    writes = {}
+    for bi, b in enumerate(bl):
+        if b["cleanup"]:
+            continue
+        for s in b["stmts"]:
+            if s["k"] != "Assign":
+                continue
+            fi, whole = sh.field_of(s["place"])
+            if fi is None or not whole:
+                continue
+            rv = s["rv"]
+            kind = "const" if (rv["k"] == "Use" and "const" in rv["op"]) or (rv["k"] == "Aggregate" and not rv.get("ops")) else "other"
+            writes.setdefault(fi, []).append((bi, kind))
+        t = b["term"]
+        if t["k"] == "Call" and t.get("dest"):
+            fi, whole = sh.field_of(t["dest"])
+            if fi is not None and whole:
+                writes.setdefault(fi, []).append((bi, "call:" + last(t.get("def") or "")))
+    # straight-line chains
+    def chain_from(bi):
+        out = [bi]
+        seen = {bi}
+        x = bi
+        while True:
+            t = bl[x]["term"]
+            nxt = None
+            if t["k"] == "Goto":
+                nxt = t["target"]
+            elif t["k"] in ("Call", "Drop", "Assert"):
+                nxt = t.get("target")
+            if nxt is None or nxt in seen or bl[nxt]["cleanup"]:
+                break
+            out.append(nxt)
+            seen.add(nxt)
+            x = nxt
+        return out
+    preds = {}
+    for bi, b in enumerate(bl):
+        for s_ in mirq.succs(b["term"]):
+            preds.setdefault(s_, []).append(bi)
+    def chain_back(bi):
+        out = []
+        x = bi
+        seen = {bi}
+        while True:
+            ps = [p for p in preds.get(x, []) if not bl[p]["cleanup"]]
+            if len(ps) != 1 or ps[0] in seen:
+                break
+            p = ps[0]
+            if bl[p]["term"]["k"] not in ("Goto", "Call", "Drop", "Assert"):
+                break
+            out.append(p)
+            seen.add(p)
+            x = p
+        return out
+    regions = []
+    for bi, kind in writes.get(sh.idx["state"], []):
+        region = set(chain_from(bi)) | set(chain_back(bi))
+        fields = set(fi for fi, ws in writes.items() for (b2, k2) in ws if b2 in region)
+        if sh.idx["buffer"] in fields:
+            regions.append((region, fields))
+    excluded = {sh.idx["row"], sh.idx["col"], sh.idx["state"], sh.idx["result"], sh.idx["buffer"]} | set(sh.rest_true) | ({sh.end_flag} if sh.end_flag is not None else set())
+    cands = {}
+    for fi, ws in writes.items():
+        if fi in excluded or sh.fields[fi]["ty"] not in ("usize", "bool", "u32", "u64", "i32"):
+            continue
+        kinds = set(k for _b, k in ws)
+        if "const" in kinds and (kinds - {"const"} or sh.fields[fi]["ty"] == "bool"):
+            cands[fi] = ws
+    # the starter may (re)initialise a field on every path instead
+    starter_fields = set()
+    for b in sh.starter["mir"]["blocks"]:
+        for s in b["stmts"]:
+            if s["k"] == "Assign":
+                fi, whole = sh.field_of(s["place"])
+                if fi is not None and whole:
+                    starter_fields.add(fi)
+    return regions, cands, starter_fields
+
+
+def rule_A14(ctx):
+    F = ctx.F
+    r = RuleResult("A14", "per-token reset completeness: the block that returns the lexer to its neutral state when a token ends also resets every counter / flag the consumer both sets to a constant and changes while reading a token")
+    sh = LexShape(F)
+    if sh.err:
+        r.anchor_missing("lexer shape", sh.err)
+        return r
+    regions, cands, starter_fields = reset_analysis(sh)
+    r.floor("token-end reset blocks (state and buffer reset together)", len(regions), 1)
+    r.floor("per-token counters / flags", len(cands), 2)
+    for fi in sorted(cands):
+        nm = sh.fields[fi]["name"]
+        ok = all(fi in fields for _reg, fields in regions) or False
+        r.examine((nm,), True, {"field": nm, "reset_with_the_token": ok})
+        if not ok:
+            r.finding(sh.consumer["path"], "not-reset-with-token:%s" % nm, loc(sh.consumer["mir"]["blocks"][0]["term"]), "the lexer field `%s` is set to a constant and changed while a token is read, but the block that ends a token (state, buffer and type reset) does not reset it: its value carries over into the next token - e.g. the closing-quote count of the previous literal makes a following one-character literal end late, swallowing source text" % nm)
+    return r
